@@ -19,6 +19,7 @@ Games ==
       [] Family = "diag" -> DescribeAll("diag", Pick(K, DiagGames))
       [] Family = "samerow" -> DescribeAll("samerow", Pick(K, SameRowGames))
       [] Family = "loopdiag" -> DescribeAll("loopdiag", Pick(K, LoopDiagGames))
+      [] Family = "slowrew" -> DescribeAll("slowrew", Pick(K, SlowRewGames))
       [] Family = "zerow" -> DescribeAll("zerow", ZeroWGames)
       [] Family = "slow" -> DescribeAll("slow", Pick(K, SlowGames))
       [] Family = "bigrew" -> DescribeAll("bigrew", Pick(K, BigRewGames))
